@@ -30,12 +30,17 @@ pub struct Q {
 #[derive(Clone, Debug, Serialize, Deserialize)]
 pub struct Case {
     pub arrivals: Vec<Q>,
+    /// (before arrival i, n): quotes of n further, distinct peers (one each, unobjectionable) are verified
+    /// there — a node sees quotes of many peers between two quotes of one peer
+    #[serde(default)]
+    pub crowd: Vec<(u8, u8)>,
 }
 
 fn strategy() -> BoxedStrategy<Case> {
     let q = (0u8..2, 0u8..12, prop_oneof![6 => Just(0i8), 1 => Just(1i8), 1 => -6i8..0, 2 => -24i8..-6], prop_oneof![8 => Just(0i8), 1 => -4i8..0, 1 => -12i8..-4])
         .prop_map(|(peer, rank, pays_delta, live_delta)| Q { peer, rank, pays_delta, live_delta });
-    proptest::collection::vec(q, 2..vh_core::depth(9, 16)).prop_map(|arrivals| Case { arrivals }).boxed()
+    let crowd = prop_oneof![2 => Just(vec![]), 1 => proptest::collection::vec((0u8..8, prop_oneof![1u8..8, 15u8..45]), 1..3)];
+    (proptest::collection::vec(q, 2..vh_core::depth(9, 16)), crowd).prop_map(|(arrivals, crowd)| Case { arrivals, crowd }).boxed()
 }
 
 fn mk_quote(q: &Q, base: SystemTime) -> PaymentQuote {
@@ -70,7 +75,22 @@ fn check(case: &Case, ctx: &mut Ctx) {
     let base = SystemTime::now() - Duration::from_secs(3000);
     let mut st = vec![PeerState::Judging(None), PeerState::Judging(None)];
     let (mut due, mut out_of_order) = (0, 0);
+    let mut bystanders = 0u64;
     for (i, q) in case.arrivals.iter().enumerate() {
+        for (_, n) in case.crowd.iter().filter(|(at, _)| *at as usize == i) {
+            for _ in 0..*n {
+                // one quote per bystander, dated among and after the tracked peers' quotes
+                let b = Q { peer: 0, rank: ((bystanders * 7) % 16) as u8, pays_delta: 0, live_delta: 0 };
+                let mut quote = mk_quote(&b, base);
+                let kp = fix::ed_keypair(700 + bystanders);
+                quote.pub_key = kp.public().encode_protobuf();
+                let bytes = PaymentQuote::bytes_for_signing(quote.content, quote.timestamp, &quote.quoting_metrics, &quote.rewards_address);
+                quote.signature = kp.sign(&bytes).expect("sign");
+                let _ = sim.handle_local(LocalSwarmCmd::QuoteVerification { quotes: vec![(fix::peer(700 + bystanders), quote)] });
+                bystanders += 1;
+            }
+            sim.drain();
+        }
         let p = (q.peer % 2) as usize;
         let peer = fix::peer(600 + p as u64);
         let quote = mk_quote(q, base);
@@ -115,6 +135,8 @@ fn check(case: &Case, ctx: &mut Ctx) {
         }
     }
     ctx.label_if(due > 0, "flag_due");
+    ctx.label_if(bystanders >= 20, "twenty_or_more_other_peers_quoted_in_between");
+    ctx.label_if(bystanders > 0 && bystanders < 20, "a_few_other_peers_quoted_in_between");
     ctx.label_if(out_of_order > 0, "older_quote_arrives_after_a_newer_one");
     ctx.nontrivial_if(due > 0 && out_of_order > 0);
     drop(sim);
